@@ -4920,7 +4920,8 @@ class Frame(ContainerOperand):
 
         if drop:
             blocks = TypeBlocks.from_blocks(
-                    self._blocks._drop_blocks(column_key=column_iloc))
+                    self._blocks._drop_blocks(column_key=column_iloc),
+                    shape_reference=(self.shape[0], 0))
             columns = self._columns._drop_iloc(column_iloc)
             own_data = True
             own_columns = True
@@ -5004,7 +5005,8 @@ class Frame(ContainerOperand):
 
         if drop:
             blocks = TypeBlocks.from_blocks(
-                    blocks_src._drop_blocks(column_key=column_iloc))
+                    blocks_src._drop_blocks(column_key=column_iloc),
+                    shape_reference=(self.shape[0], 0))
             columns = self._columns._drop_iloc(column_iloc)
             own_data = True
             own_columns = True
